@@ -77,6 +77,17 @@ def run_case(ctx):
     cond_input = gen.pick(rng, ['vector', 'matrix'])
     sig = dict(model=mkind, cond_input=cond_input, n_part=n_part, n_sim=n_sim, small=n_cond <= 2, square=n_ch == n_cond)
     # ---- design
+    if rng.integers(8) == 0:
+        # sizes held in a narrow unsigned type (read from a header) whose product does not fit that type
+        nc8, np8 = int(rng.integers(17, 30)), int(rng.integers(10, 17))
+        cv8, pv8 = make_design(np.uint8(nc8), np.uint8(np8))
+        ctx.case('design', dict(sig, sizes='uint8'))
+        ok8 = len(cv8) == nc8 * np8 == len(pv8) and all(
+            sorted(int(c) for c, q in zip(cv8, pv8) if q == p) == list(range(nc8)) for p in range(np8))
+        if not ok8:
+            ctx.fail('design', dict(sig, what='design', sizes='uint8'), f'design for {nc8} conditions x {np8} partitions given '
+                     f'as np.uint8 has {len(cv8)} / {len(pv8)} entries', dict(n_cond=nc8, n_part=np8))
+            return
     # the numbers of conditions / partitions as Python ints, numpy integers or 0-d arrays
     held = [lambda n: n, lambda n: np.int64(n), lambda n: np.array(n)][int(rng.integers(3))]
     cond_vec, part_vec = make_design(held(n_cond), held(n_part))
